@@ -105,6 +105,11 @@ func (r *Report) Finish() int {
 	}
 	sort.Slice(r.Violations, func(i, j int) bool { return r.Violations[i].Sig < r.Violations[j].Sig })
 	seenV := map[string]bool{}
+	if os.Getenv("VERIF_ALLVIOL") != "" {
+		for _, v := range r.Violations {
+			fmt.Printf("VIOLATION-CASE %s %s\n", v.Tid, v.What[:min(len(v.What), 160)])
+		}
+	}
 	for _, v := range r.Violations {
 		if seenV[v.Sig] {
 			continue
